@@ -47,6 +47,10 @@ def obligations(tier):
         if len(stack) == 3 and table in ('two', 'both') and req in ('unknown', 'nobind'):
             continue
         obs.append({'h': 'chain', 'disp': disp, 'stack': stack, 'table': table, 'req': req})
+    # handler tables written with the per-code keys first (the order of running is generic, then per-code, whatever the writing order)
+    for disp, table, req in it.product(('sync', 'async'), ('both_rev', 'two_rev', 'replace_generic_rev'), ('unknown', 'nobind', 'perr', 'boom', 'notif_perr', 'batch', 'batch_2fail')):
+        for stack in ([], ['P']):
+            obs.append({'h': 'chain', 'disp': disp, 'stack': stack, 'table': table, 'req': req})
     # a middleware that answers every request itself, notifications included
     for disp, stack, table, req in it.product(('sync', 'async'), (['A'], ['P', 'A'], ['W', 'A'], ['A', 'P']), ('none', 'generic'),
                                               ('ok', 'notif_ok', 'notif_perr', 'batch', 'notif_batch', 'mixed_batch')):
@@ -140,6 +144,9 @@ def _table(env, kind, log, ctx, is_async):
         return (name, rc, _mk_handler(name, log, ctx, is_async, rc))
 
     generic, percode = [], []
+    rev = kind.endswith('_rev')          # the same table WRITTEN with the per-code keys before the None key
+    if rev:
+        kind = kind[:-4]
     if kind in ('generic', 'both'):
         generic = [H('g1')]
     if kind in ('percode', 'both'):
@@ -159,10 +166,12 @@ def _table(env, kind, log, ctx, is_async):
         env.assume(k1 != k2)
         percode = [(k1, [H('hR', rc), H('h1')]), (k2, [H('h2')])]
     pairs = []
-    if generic:
+    if generic and not rev:
         pairs.append((None, [h[2] for h in generic]))
     for k, hs in percode:
         pairs.append((k, [h[2] for h in hs]))
+    if generic and rev:
+        pairs.append((None, [h[2] for h in generic]))
     table = {k: v for k, v in pairs}      # comprehension on purpose (symbolic keys)
     return table, generic, percode
 
